@@ -8,15 +8,17 @@ EXTENDS MsgCore, TLC
 
 CONSTANTS MaxMsgs
 Keys == {"e1", "e2"}
-Data == [v : {"0", "1"}]
-Flt1 == [k |-> "eq", f |-> "v", c |-> "1"]
-NoF  == [k |-> "none"]
 Empty == [x \in {} |-> ""]
+Data == [v : {"0", "1"}] \cup {Empty}         \* a message need not carry the field a filter reads
+Flt1 == [k |-> "eq", f |-> "v", c |-> "1"]
+Not0 == [k |-> "not", a |-> [k |-> "eq", f |-> "v", c |-> "0"]]
+NoF  == [k |-> "none"]
 \* trigger sets: shared and distinct event types, with and without filter, two decorators on one function
 TrigSets == {
   << [fid |-> "f", tag |-> "d1", kind |-> "event", key |-> "e1", flt |-> NoF,  kw |-> Empty] >>,
   << [fid |-> "f", tag |-> "d1", kind |-> "event", key |-> "e1", flt |-> Flt1, kw |-> Empty],
      [fid |-> "g", tag |-> "d1", kind |-> "event", key |-> "e1", flt |-> NoF,  kw |-> Empty] >>,
+  << [fid |-> "f", tag |-> "d1", kind |-> "event", key |-> "e1", flt |-> Not0, kw |-> Empty] >>,
   << [fid |-> "f", tag |-> "d1", kind |-> "event", key |-> "e1", flt |-> Flt1, kw |-> Empty],
      [fid |-> "f", tag |-> "d2", kind |-> "event", key |-> "e2", flt |-> NoF,  kw |-> [tagk |-> "x"]] >>,
   << [fid |-> "f", tag |-> "d1", kind |-> "event", key |-> "e1", flt |-> NoF,  kw |-> Empty],
@@ -77,5 +79,6 @@ ContextLineage          == /\ \A k \in 1..Len(runs) : runs[k].parent = msgs[runs
                            /\ \A k \in 1..Len(emitted) : emitted[k].ctx = runs[emitted[k].r].ctx
 DistinctTasks           == \A a, b \in 1..Len(runs) : a # b => runs[a].ctx # runs[b].ctx
 W_NoOverlap == ~\E a, b \in 1..Len(runs) : a < b /\ runs[a].t = runs[b].t /\ runs[a].st = "sleeping" /\ runs[b].st = "sleeping"
+W_NoFilterError == \A t \in TI : \A i \in 1..Len(msgs) : EvalR(trigs[t].flt, msgs[i].d) # "E"
 W_NoFiltered == \A t \in TI : \A i \in 1..Len(msgs) : Matches(trigs[t], msgs[i]) => Accepts(trigs[t], msgs[i])
 =============================================================================
